@@ -80,7 +80,7 @@ pub fn run_history(r: &mut Rng, cfg: &Cfg, log: &mut Vec<String>) -> Result<Stat
         let j = r.usize(n);
         let k = r.usize(n);
         let was_heap = is_heap(&p[i]);
-        let opn = r.below(40);
+        let opn = r.below(42);
         let name: &'static str;
         macro_rules! bin {
             ($nm:expr, $op:tt) => {{
@@ -400,6 +400,35 @@ pub fn run_history(r: &mut Rng, cfg: &Cfg, log: &mut Vec<String>) -> Result<Stat
                 p[i] = dr;
                 q[i] = mr;
                 log.push(format!("{}: p[{}] = p[{}] % p[{}] via div_rem (+gcd)", step, i, j, k));
+            }
+            40 | 41 => {
+                name = "modular";
+                // a ring over a multi-word (or small) modulus taken from the pool: the ConstDivisor keeps the modulus as
+                // a boxed slice, residues reuse the buffers of the integers they are built from
+                let mut mm = q[j].magnitude().clone();
+                if mm.is_zero() {
+                    mm = BigUint::from(97u32);
+                }
+                let ring = dashu_int::fast_div::ConstDivisor::new(ubig_of_nat(&mm));
+                let a = ring.reduce(p[k].clone());
+                let b = ring.reduce(p[i].clone());
+                let y = &a * &b + &a - &b;
+                let mi = BigInt::from(mm.clone());
+                let (ma, mb) = (q[k].mod_floor(&mi), q[i].mod_floor(&mi));
+                let my = (&ma * &mb + &ma - &mb).mod_floor(&mi);
+                let inv = a.clone().inv();
+                if let Some(iv) = &inv {
+                    if ((int_of(&IBig::from(iv.residue())) * &ma) - 1i32).mod_floor(&mi) != BigInt::zero() && mm != BigUint::from(1u32) {
+                        return Err(format!("step {}: modular inverse wrong", step));
+                    }
+                } else if ma.gcd(&mi) == BigInt::from(1) && mm != BigUint::from(1u32) {
+                    return Err(format!("step {}: invertible element reported as not invertible", step));
+                }
+                p[i] = IBig::from(y.residue());
+                q[i] = my;
+                drop((a, b, y, inv));
+                drop(ring);
+                log.push(format!("{}: p[{}] = (p[{}]*p[{}] + p[{}] - p[{}]) mod |p[{}]|", step, i, k, i, k, i, j));
             }
             38 => {
                 name = "bit_edit";
